@@ -1,5 +1,5 @@
 """C05 Checkpoint values do not depend on the checkpoint set; they interpolate exactly."""
-from contracts import interp, ivp
+from contracts import adaptive, interp, ivp
 
 LEVEL = "proof"
 
@@ -9,4 +9,9 @@ def contracts():
     for c in interp.configs("thorough"):
         out.append(interp.interpolate_fwd_contract(c))
         out.append(interp.interpolate_at_t1_contract(c))
+    out.append(adaptive.terminal_values_contract())
+    for layout in ("dense", "isotropic", "blockdiag"):
+        d = 1 if layout == "dense" else 2
+        out.append(interp.offgrid_contract(ivp.Cfg(layout, "none", "filter", "ts0", q=1, d=d), N=2, k=1))
+        out.append(interp.offgrid_contract(ivp.Cfg(layout, "dynamic", "fixedinterval", "ts0", q=1, d=d), N=2, k=0))
     return out
